@@ -226,6 +226,12 @@ def finish(rep, ctx, meta, replay_key=None):
     for n in rep.notes:
         print('  note: ' + n)
     os.makedirs(os.path.join(HERE, 'replays'), exist_ok=True)
+    for old_ in os.listdir(os.path.join(HERE, 'replays')):
+        if old_.startswith(pid + '-'):
+            try:
+                os.remove(os.path.join(HERE, 'replays', old_))
+            except OSError:
+                pass
     for v in old:
         print('KNOWN-FINDING: property=%s %s [%s]' % (pid, kmap[v['key']]['what_fails'], v['key']))
     for k in stale:
